@@ -42,6 +42,10 @@ func (c *compiler) compile() (string, error) {
 		var res interface{}
 		var err error
 
+		// forget the statement recorded inside an earlier block, so that an error
+		// of this top-level statement is not reported at that stale line
+		c.curStmt = stmt
+
 		switch node := stmt.(type) {
 		case *ast.ReturnStatement:
 			res, err = c.evalReturnStatement(node)
